@@ -52,6 +52,11 @@ class Layout:
                 self.dirs.append(twin)
                 self.case_twins = True
                 pimp = max(pimp, 0.5)
+        self.empty_dir = None
+        if rng.random() < 0.3 and "assets" not in self.dirs:
+            # a directory that holds no QML file at all (images, scripts): importing it is importing a module with no types
+            self.dirs.append("assets")
+            self.empty_dir = len(self.dirs) - 1
         n = len(self.dirs)
         self.imports = {}          # file -> list of dir indices imported by string
         self.comps = {}            # component name -> (dir index, root type name)
@@ -59,7 +64,7 @@ class Layout:
         self.dir_files = {i: [] for i in range(n)}
         k = 0
         for i in range(n):
-            for j in range(rng.choice([1, 1, 2, 3])):
+            for j in range(rng.choice([1, 1, 2, 3]) if i != self.empty_dir else 0):
                 k += 1
                 name = "Comp%d" % k
                 imps = [x for x in range(n) if x != i and rng.random() < pimp]
@@ -153,6 +158,10 @@ class Layout:
                 self.links.append(p)
                 continue
             open(os.path.join(root, p), "w").write(t)
+        if self.empty_dir is not None:
+            dd = os.path.join(root, self.dirs[self.empty_dir])
+            os.makedirs(dd, exist_ok=True)
+            open(os.path.join(dd, "icons.js"), "w").write("var x = 1\n")
         # what is NOT a QML component of a directory: files with another or no extension, and a DIRECTORY named like a component
         for i, d in enumerate(self.dirs):
             if self.rng.random() < 0.5:
@@ -223,6 +232,8 @@ def run(ctx):
             ctx.dist("layout-with-redundant-imports")
         if getattr(lay, "case_twins", False):
             ctx.dist("layout-with-case-twin-directories")
+        if getattr(lay, "empty_dir", None) is not None:
+            ctx.dist("layout-with-a-directory-without-components")
         bad = [r for _, r in runs if not isinstance(r, dict) or "visited" not in r]
         if bad:
             ctx.violation("discovery/translation does not terminate normally on this layout: %s" % str(bad[0])[:300], dict(rep, impl_output=str(bad[0])[:1000],
